@@ -9,9 +9,10 @@ fn main()
 	match args.get(1).map(|x| x.as_str())
 	{
 		Some("error-codes") => generated::error_codes::run(),
+		Some("value-types") => generated::value_types::run(&args[2..]),
 		_ =>
 		{
-			eprintln!("usage: pv_replay <error-codes>");
+			eprintln!("usage: pv_replay <error-codes|value-types>");
 			std::process::exit(2);
 		}
 	}
